@@ -102,7 +102,10 @@ Definition run_op (o : op) (lsym rsym : bool) (a b : Q) : cval :=
   end.
 
 (* one correspondence case: operator, "lhs / rhs is a sympy number", lhs p/q, rhs p/q,
-   and what the implementation returned *)
+   and what the implementation returned.  props/C07.py passes the two tags as they are
+   only for an operand class that known_findings.json records as a known defect of
+   integer_divide, and `false` otherwise: vfloordiv_impl false false = vfloordiv
+   (C07_floordiv_impl_pyint), i.e. everything else is compared with the exact floor. *)
 Definition K (o : op) (lsym rsym : bool) (p1 : Z) (q1 : positive) (p2 : Z) (q2 : positive) (r : cval) : bool :=
   cval_eqb (run_op o lsym rsym (Qmake p1 q1) (Qmake p2 q2)) r.
 
